@@ -10,7 +10,7 @@ reference definition (Str/Spec.lean) the theorems are about."""
 import itertools, re
 from vlib import Stream, hexs
 
-KINDS = ("comma", "ip4", "email", "test", "dupf", "catf", "unique")
+KINDS = ("comma", "ip4", "email", "test", "dupf", "catf", "unique", "cpyov", "ncpyov")
 FILL = 0xAA
 INT_MIN, INT_MAX = -2 ** 31, 2 ** 31 - 1
 
@@ -143,6 +143,25 @@ def judge(kind, w, f, line):
             return "qstrcatf(%r, ...) gives %r, documented %r" % (dst[:40], blk[:60], want[:60])
         if blk[len(want):] != orig[len(want):]:
             return "qstrcatf wrote behind the terminator of the result"
+    elif kind in ("cpyov", "ncpyov"):
+        # everything is computed from the ORIGINAL bytes of the block
+        buf = unhex(w[1]); d, s, size = int(w[2]), int(w[3]), int(w[4])
+        if kind == "cpyov":
+            src = buf[s:buf.index(b"\0", s)]
+        else:
+            src = buf[s:s + int(w[5])]
+        if size == 0:
+            want = buf
+        else:
+            n = min(len(src), size - 1)
+            want = buf[:d] + src[:n] + b"\0" + buf[d + n + 1:]
+        got = unhex(f[1])
+        if f[0] != "ok" or int(f[3]) != d:
+            return "%s: bad result %s" % (kind, line[:80])
+        if got != want:
+            what = "destination" if got[d:d + size] != want[d:d + size] else "bytes outside [dst, dst+size)"
+            return ("%s(buf+%d, %d, buf+%d) on %r: block is %r, expected %r (the first min(len, size-1) bytes of the "
+                    "original source and a NUL at dst, nothing else changed): wrong %s" % (kind, d, size, s, buf, got, want, what))
     elif kind == "unique":
         if f != ["ok", "32", "0"]:
             return "qstrunique result is not 32 lowercase hex digits: " + line
@@ -259,5 +278,46 @@ def streams(chk):
         else:
             ca.append("catf %d %s ss %s %s" % (len(d) + len(a) + len(b) + 2 + rng.choice([0, 0, 1, 9]), hexs(d), hexs(a), hexs(b)))
     sts.append(Stream("catf", ca))
+    # --- overlapping bounded copies: dst and src inside one block, both directions, dst == src
+    def ov_ops(buf, with_nb):
+        n = len(buf)
+        for s in range(n + 1):
+            z = buf.find(b"\0", s)
+            for d in range(n + 1):
+                for size in range(0, n - d + 1):
+                    if not with_nb:
+                        if z >= 0:
+                            yield "cpyov %s %d %d %d" % (hexs(buf), d, s, size)
+                    else:
+                        for nb in list(range(0, n - s + 1)) + [n + 5]:       # n + 5: the clamp does the work
+                            if size == 0 or s + min(nb, size - 1) <= n:
+                                yield "ncpyov %s %d %d %d %d" % (hexs(buf), d, s, size, nb)
+    cp, ncp = [], []
+    for k in range(1, 7):
+        for tpl in itertools.product(b"ab\0", repeat=k):
+            buf = bytes(tpl)
+            cp += list(ov_ops(buf, False))
+            if k <= (4 if quick else 5):
+                ncp += list(ov_ops(buf, True))
+    # blocks of distinct bytes make every misplaced byte visible
+    for _ in range(400 if quick else 8000):
+        n = rng.randrange(2, 40)
+        buf = bytearray(rng.sample(range(1, 256), n))
+        for _z in range(rng.randrange(1, 3)):
+            buf[rng.randrange(n)] = 0
+        buf = bytes(buf)
+        s = rng.randrange(0, buf.rindex(b"\0") + 1)
+        d = rng.choice([s, rng.randrange(0, n), max(0, s - rng.randrange(0, 4)), min(n - 1, s + rng.randrange(0, 4))])
+        size = rng.choice([n - d, rng.randrange(0, n - d + 1), min(n - d, buf.index(b"\0", s) - s + 1)])
+        cp.append("cpyov %s %d %d %d" % (hexs(buf), d, s, size))
+        nb = rng.randrange(0, n - s + 1)
+        ncp.append("ncpyov %s %d %d %d %d" % (hexs(buf), d, s, size, nb))
+    # the documented idiom: drop a prefix in place, qstrcpy(buf, sizeof(buf), buf + k)
+    for k in range(0, 8):
+        buf = b"0123456789abcdef\0"
+        cp.append("cpyov %s 0 %d %d" % (hexs(buf), k, len(buf)))
+        cp.append("cpyov %s %d 0 %d" % (hexs(buf + bytes(8)), k, len(buf) + 8 - k))
+    sts.append(Stream("copy-overlap:cpyov", cp, note="all blocks <= 6 over {a,b,NUL} x all (dst, src, size)"))
+    sts.append(Stream("copy-overlap:ncpyov", ncp))
     sts.append(Stream("unique", ["unique -", "unique " + hexs(b"seed"), "unique " + hexs(b"x" * 200)]))
     return sts
